@@ -31,7 +31,8 @@ THEOREMS = ["C04_recv_contract", "C04_recv_all_exact", "C04_fuel_store_loop", "C
             "C04_accepted", "C04_buffer", "C04_check_size_local", "C04_consumers_local", "C04_receive_frame",
             "C04_reject_length", "C04_reject_size", "C04_unknown_type", "C04_size_per_type", "C04_store_loop_fails",
             "C04_sync_fails", "C04_step_fails", "C04_stored_prefix", "C04_stored_prefix_key_ok", "C04_prefix_check_translated", "C04_check_size_translated",
-            "C04_check_size_reads_inside"]
+            "C04_check_size_reads_inside", "C04_footer_writes_inside", "C04_footer_translated", "C04_receive_path_inside",
+            "C04_error_text_len_load_inside"]
 CORPUS = os.path.join(vlib.VERIF, "corpus", "C04")
 MAX = L.MAX
 SESS, SERIAL = 4711, 9
@@ -331,10 +332,35 @@ def hostbits_table_stress(rnd, n):
     return None, None
 
 
+def translator_vs_compiled(chk):
+    """The translator is trusted; this narrows the trust: the functions it translated in memory mode (size check, header and
+    footer byte-order conversion with their stores, the text-length load) are evaluated inside Coq on a fixed set of buffers
+    and must give the bytes the COMPILED functions of the tree under test give (harness/footer_dtest.c).  tools/footer_diff.py
+    rewrites Rtr/FooterDiff.v with the compiled code's answers; the build of that file is the comparison."""
+    import footer_diff
+    if footer_diff.main() != 0:
+        chk.violation({"kind": "translator-vs-compiled-C", "detail": "harness/footer_dtest.c did not run to the end on the tree under test"},
+                      no_input=True, tag="%s-footerdiff" % vlib.seed())
+        return
+    ok, out = vlib.coq_make(["theories/Rtr/FooterDiff.vo"], timeout=600)
+    chk.cov["translator_vs_compiled_C"] = "Rtr/FooterDiff.v: %s" % ("all examples hold" if ok else "an example fails")
+    if not ok:
+        e = vlib.first_coq_error(out)
+        th = vlib.theorem_at(e["file"], e["line"]) if e["file"] else None
+        txt = open(os.path.join(vlib.THEORIES, "Rtr", "FooterDiff.v")).read()
+        i = txt.find("Example %s " % th) if th else -1
+        chk.violation({"kind": "translator-vs-compiled-C", "example": th, "statement": txt[i:i + 1500] if i >= 0 else None,
+                       "detail": e["error"], "what": "the Coq translation of a memory-mode function and the compiled function disagree on this buffer "
+                                                      "(or the translated function is no longer defined there): the tie (a) is broken"},
+                      no_input=(i < 0), tag="%s-footerdiff" % vlib.seed())
+
+
 def run(chk):
     rnd = vlib.rng(4)
     pr = vlib.check_proofs("C04", THEOREMS)
     chk.proof = pr
+    if pr.ok:
+        translator_vs_compiled(chk)
     L.setup("c04")
     quick = chk.tier == "quick"
     modes = ["whole", "byte", "rand"] if quick else ["whole", "byte", "rand", "eight", "rand"]
